@@ -108,3 +108,37 @@ Theorem C13_http_request_peer_sane :
     sane_peer (match r_af r with V4 => false | V6 => true end) (r_peer r).
 Proof. exact http_request_peer_sane. Qed.
 Print Assumptions C13_http_request_peer_sane.
+
+(* ---- the error texts a client can provoke are FIXED constants: whatever the request bytes (URL data of BEP 41
+   options and query strings included), a rejection by the HTTP or UDP parser carries one of the listed texts,
+   each 7-bit printable ASCII.  Nothing of the request is echoed; and the text - which the frontends also hand
+   to Prometheus as a label value, where invalid UTF-8 panics - is always a valid label. *)
+From Chihaya Require Import Model.HttpParse Model.UdpParse Proofs.HttpParseP Proofs.UdpParseP.
+Theorem C13_http_announce_reject_texts_fixed : forall parse_ip header_get split_host o uri remote,
+  fixed_outcome (HttpParse.parse_announce parse_ip header_get split_host o uri remote).
+Proof. exact http_announce_reject_texts_fixed. Qed.
+Print Assumptions C13_http_announce_reject_texts_fixed.
+
+Theorem C13_http_scrape_reject_texts_fixed : forall o uri, fixed_outcome (HttpParse.parse_scrape o uri).
+Proof. exact http_scrape_reject_texts_fixed. Qed.
+Print Assumptions C13_http_scrape_reject_texts_fixed.
+
+Theorem C13_http_client_errors_ascii :
+  Forall (fun e => exists m, e = ClientErr m /\ ascii_text m = true) http_client_errors.
+Proof. exact http_client_errors_ascii. Qed.
+Print Assumptions C13_http_client_errors_ascii.
+
+Theorem C13_udp_announce_reject_texts_fixed : forall v6 o src packet e,
+  UdpParse.parse_announce v6 o src packet = UdpParse.Reject e -> In e udp_client_errors.
+Proof. exact udp_announce_reject_texts_fixed. Qed.
+Print Assumptions C13_udp_announce_reject_texts_fixed.
+
+Theorem C13_udp_scrape_reject_texts_fixed : forall o packet e,
+  UdpParse.parse_scrape o packet = UdpParse.Reject e -> In e udp_client_errors.
+Proof. exact udp_scrape_reject_texts_fixed. Qed.
+Print Assumptions C13_udp_scrape_reject_texts_fixed.
+
+Theorem C13_udp_client_errors_ascii :
+  Forall (fun e => exists m, e = ClientErr m /\ ascii_text_u m = true) udp_client_errors.
+Proof. exact udp_client_errors_ascii. Qed.
+Print Assumptions C13_udp_client_errors_ascii.
